@@ -422,6 +422,115 @@ def h2_violation_bytes(which: str) -> bytes:
     return bytes(b.out)
 
 
+# --------------------------------------------------------------------------- WebSocket frames
+
+WS_LIMIT = 64  # websocket_max_message_size for the frame grammar: the limit is within reach
+WS_OPS = ["text", "binary", "text_frag", "binary_frag", "over_text", "over_binary",
+          "over_text_frag", "over_binary_frag", "ping", "pong", "big_ping", "frag_ping",
+          "cont_alone", "reserved_opcode", "bad_utf8", "split_utf8", "unmasked", "rsv_bits",
+          "close_1000", "close_bad_code", "close_short", "close_long_reason", "huge_length",
+          "text_inside_frag", "empty_text", "empty_binary"]
+
+
+def ws_frames(op: str, n: int) -> bytes:
+    from wire.ws import encode_frame
+
+    small = bytes(65 + (n + i) % 26 for i in range(1 + n % 20))
+    over = bytes(97 + (n + i) % 26 for i in range(WS_LIMIT + 1 + n % 40))
+    if op == "text":
+        return encode_frame(1, small)
+    if op == "binary":
+        return encode_frame(2, small)
+    if op == "text_frag":
+        return encode_frame(1, small[:1], fin=False) + encode_frame(0, small[1:])
+    if op == "binary_frag":
+        return encode_frame(2, small[:1], fin=False) + encode_frame(0, small[1:])
+    if op == "over_text":
+        return encode_frame(1, over)
+    if op == "over_binary":
+        return encode_frame(2, over)
+    if op in ("over_text_frag", "over_binary_frag"):
+        code = 1 if op == "over_text_frag" else 2
+        k = 1 + n % WS_LIMIT
+        return encode_frame(code, over[:k], fin=False) + encode_frame(0, over[k:2 * k], fin=False) \
+            + encode_frame(0, over[2 * k:])
+    if op == "ping":
+        return encode_frame(9, small[:10])
+    if op == "pong":
+        return encode_frame(10, small[:10])
+    if op == "big_ping":
+        return encode_frame(9, b"p" * 126)  # control frames are limited to 125 bytes
+    if op == "frag_ping":
+        return encode_frame(9, b"pp", fin=False)
+    if op == "cont_alone":
+        return encode_frame(0, small)
+    if op == "reserved_opcode":
+        return encode_frame(3 + n % 5, small)
+    if op == "bad_utf8":
+        return encode_frame(1, b"ok\xff\xfe")
+    if op == "split_utf8":
+        e = "h\u00e9llo \u20ac".encode("utf-8")
+        k = 2 + n % (len(e) - 2)
+        return encode_frame(1, e[:k], fin=False) + encode_frame(0, e[k:])
+    if op == "unmasked":
+        return encode_frame(1, small, mask=None)
+    if op == "rsv_bits":
+        return encode_frame(1, small, rsv1=True)  # no extension was negotiated
+    if op == "close_1000":
+        return encode_frame(8, b"\x03\xe8bye")
+    if op == "close_bad_code":
+        return encode_frame(8, (1005 if n & 1 else 999).to_bytes(2, "big"))
+    if op == "close_short":
+        return encode_frame(8, b"\x03")
+    if op == "close_long_reason":
+        return encode_frame(8, b"\x03\xe8" + b"r" * 124)
+    if op == "huge_length":
+        return bytes([0x82, 0xFF]) + (1 << 62).to_bytes(8, "big") + b"\x00\x00\x00\x00abcd"
+    if op == "text_inside_frag":
+        return encode_frame(1, small[:1], fin=False) + encode_frame(2, small)
+    if op == "empty_text":
+        return encode_frame(1, b"")
+    return encode_frame(2, b"")
+
+
+@st.composite
+def ws_grammar_case(draw: Any) -> Dict[str, Any]:
+    return {"kind": "ws_grammar", "carrier": draw(st.sampled_from(["h1", "h1", "h2"])),
+            "ops": draw(st.lists(st.sampled_from(WS_OPS), min_size=1, max_size=5)),
+            "n": draw(st.integers(0, 255)), "seg": draw(segmentation()),
+            "together": draw(st.booleans()), "sched": draw(st.integers(0, 999))}
+
+
+async def ws_scenario(env: Any, case: Dict[str, Any]) -> Any:
+    """An accepted WebSocket (echo application, message limit WS_LIMIT), then the generated
+    frames: all in one write or one op at a time; afterwards the client goes away."""
+    from gen.wsdrive import WSSession
+
+    ws = WSSession(env, case["carrier"], seg=case["seg"], direct=True)
+    status = await ws.open(path="/ws")
+    frames = [ws_frames(op, case["n"] + i) for i, op in enumerate(case["ops"])]
+    if status == 101 or (case["carrier"] == "h2" and status == 200):
+        for chunk in ([b"".join(frames)] if case["together"] else frames):
+            if ws.conn.server_gone:
+                break
+            try:
+                await ws.send(chunk, seg=case["seg"])
+            except Exception:
+                break  # the h2 client refuses to write to a stream the server has reset
+            await env.settle(5.0)
+    await env.settle(30.0)
+    conn = ws.conn
+    if not conn.server_gone:
+        conn.eof()
+    await env.settle(30.0)
+    if not conn.server_gone:
+        conn.reset()
+        await env.settle(30.0)
+    conn.ws_session = ws
+    conn.ws_status = status
+    return conn
+
+
 # --------------------------------------------------------------------------- running / judging
 
 PROGRAMS = {"*": [["universal"]],
@@ -502,6 +611,15 @@ def judge(case: Dict[str, Any], obs: Any) -> Dict[str, Any]:
     data = conn.received()
     kind = case["kind"]
     consumed = bool(obs.instances) or bool(data)
+    if kind == "ws_grammar":
+        ws = conn.ws_session
+        if conn.ws_status not in (101, 200):
+            raise Violation("harness", f"handshake not accepted: {conn.ws_status}")
+        raw = ws.server_bytes()
+        frames, used, ferr = parse_server_frames(raw)
+        if ferr:
+            raise Violation("malformed_frames", ferr, **tag)
+        return {"consumed": True}
     if kind == "h1_malformed":
         resps, leftover, err = parse_responses(data, ["GET"] * 3, conn.server_gone)
         if err:
@@ -641,8 +759,12 @@ def run_case(case: Dict[str, Any]) -> CaseInfo:
         return run_campaign(case)
     cfg = {"keep_alive_timeout": T_BIG}
     info = {"consumed": False}
+    if case["kind"] == "ws_grammar":
+        cfg["websocket_max_message_size"] = WS_LIMIT
 
     async def sc(env: Any) -> Any:
+        if case["kind"] == "ws_grammar":
+            return await ws_scenario(env, case)
         return await scenario(env, case)
 
     for be in BACKENDS:
@@ -653,6 +775,8 @@ def run_case(case: Dict[str, Any]) -> CaseInfo:
         classes.append("session=" + case["session"])
     if case["kind"] == "grammar":
         classes += ["op=" + o for o in case["ops"]]
+    if case["kind"] == "ws_grammar":
+        classes += ["carrier=" + case["carrier"]] + ["wsop=" + o for o in case["ops"]]
     return CaseInfo(bool(info["consumed"]), classes, evals=2)
 
 
@@ -688,4 +812,7 @@ def parts() -> List[Part]:
                   "sessions; findings are bucketed by root cause and re-judged as 'bytes' cases"),
         Part("grammar", run_case, strategy=grammar_case, quick=900, thorough=60000,
              rule="1..3 legal-but-rare HTTP/2 ops between two witness streams"),
+        Part("ws_grammar", run_case, strategy=ws_grammar_case, quick=800, thorough=50000,
+             rule="1..5 legal, over-limit and illegal WebSocket frame ops on an accepted echo "
+                  "WebSocket (message limit 64 bytes) over HTTP/1 and HTTP/2"),
     ]
